@@ -12,6 +12,7 @@ type file struct {
 	id    string
 	child *file
 	path  string
+	root  string
 	docs  []*Document
 	depth int
 }
@@ -21,6 +22,7 @@ func (p *Parser) loadFile(path string, child *file) (*file, error) {
 		id:    path,
 		child: child,
 		path:  path,
+		root:  p.rootPath,
 	}
 
 	if child != nil {
@@ -260,6 +262,10 @@ func (f *file) toAbsolutePaths(paths []string) ([]string, error) {
 			return nil, err
 		}
 
+		// Files outside the root directory are not visible: whether they
+		// exist must not change which parents are found.
+		matches = f.insideRoot(matches)
+
 		if len(matches) == 0 {
 			return nil, fmt.Errorf("%s: %w", path, ErrMissingFile)
 		}
@@ -268,6 +274,32 @@ func (f *file) toAbsolutePaths(paths []string) ([]string, error) {
 	}
 
 	return ret, nil
+}
+
+// insideRoot returns the paths that lie inside the root directory the file
+// was loaded under, in order.
+func (f *file) insideRoot(paths []string) []string {
+	ret := []string{}
+
+	for _, path := range paths {
+		abs, err := filepath.Abs(path)
+		if err != nil {
+			continue
+		}
+
+		rel, err := filepath.Rel(f.root, abs)
+		if err != nil {
+			continue
+		}
+
+		if !filepath.IsLocal(rel) {
+			continue
+		}
+
+		ret = append(ret, path)
+	}
+
+	return ret
 }
 
 func (f *file) String() string {
